@@ -68,6 +68,43 @@ def classify(c: dict, obs: str, detail: str) -> str | None:
     return None
 
 
+# --------------------------------------------------------------------------- which repairs does /repo contain?
+
+FIX_STATE: set[str] = set()
+
+
+def probe_fixes() -> set[str]:
+    """The model carries both the rule as first found and the repaired rule for findings F1, F3, F4, F5, F9
+    (proposed_fixes/ready/C19-F*.diff).  Which one /repo currently implements is observed on each finding's own
+    witness (decision only); the model is instantiated accordingly (`fx=` token).  A finding whose repair is
+    present must be listed as `fixed` in known_findings: its numeric failure is then a VIOLATION again."""
+    wit = {f["id"]: f["witness"] for f in core.load_known_findings() if str(f.get("id", "")).startswith("C19-")}
+    present: set[str] = set()
+
+    def obs_of(fid):
+        c = wit[fid]
+        fam = F.FAMILIES[c["fam"]]
+        mp = L.infer(fam.build(c))
+        model = L.load_ir(mp)
+        try:
+            cnt = fam.fuse(model)
+        except Exception:
+            return "EXC"
+        return L.observe(model, cnt, fam.ops, {v.name for v in mp.graph.input})
+
+    tests = {
+        "F1": lambda o: not fired(o),
+        "F3": lambda o: "transA=1;transB=0" in o,
+        "F4": lambda o: not fired(o) and o != "EXC",
+        "F5": lambda o: o != "EXC",
+        "F9": lambda o: o != "EXC",
+    }
+    for k, is_fixed in tests.items():
+        if f"C19-{k}" in wit and is_fixed(obs_of(f"C19-{k}")):
+            present.add(k)
+    return present
+
+
 # --------------------------------------------------------------------------- one case
 
 
@@ -103,6 +140,8 @@ def run_case(c: dict, nrng, stats: Counter, numeric: bool = True, e2e: bool = Fa
         line = fam.line(c, shapes)
     except TypeError:
         line = fam.line(c)
+    if c["fam"] in ("biasgelu", "fmm") and FIX_STATE:
+        line += " fx=" + ",".join(sorted(FIX_STATE))
     model = L.load_ir(mp)
     known = {v.name for v in mp.graph.input}
     try:
@@ -245,6 +284,13 @@ def main(run: core.Run) -> None:
     drv = core.Driver("C19")
     stats: Counter = Counter()
     nrng = np.random.default_rng(run.seed + 12345)
+    FIX_STATE.clear()
+    FIX_STATE.update(probe_fixes())
+    run.coverage["repairs_present_in_repo"] = sorted(FIX_STATE)
+    listed_fixed = {f["id"][4:] for f in run.findings if f.get("status") == "fixed" and f["id"].startswith("C19-")}
+    if listed_fixed - FIX_STATE:
+        # a finding recorded as fixed whose witness shows the old rule again: its failures are reported below
+        run.coverage["fixed_findings_regressed"] = sorted(listed_fixed - FIX_STATE)
 
     if run.replay_path:
         body = json.loads(open(run.replay_path).read())
